@@ -77,7 +77,8 @@ Proof.
     - destruct (negb (id_has_prefix (m_id (e_msg e)) ssid from) || negb (len acc <? limit)); [apply Ha; apply in_rev; exact Hx|].
       destruct (negb (id_match (m_id (e_msg e)) ssid from until)).
       + apply (IH acc size Ha (fun y Hy => He y (or_intror Hy)) x Hx).
-      + destruct (maxMessageSize <? _); [apply Ha; apply in_rev; exact Hx|].
+      + destruct (maxMessageSize <? _); [apply (IH acc size Ha (fun y Hy => He y (or_intror Hy)) x Hx)|].
+        destruct (maxMessageSize <? _); [apply Ha; apply in_rev; exact Hx|].
         refine (IH _ _ _ _ x Hx).
         * intros y [<-|Hy]; [apply (He e (or_introl eq_refl)) | apply Ha; exact Hy].
         * intros y Hy. apply He. right. exact Hy. }
